@@ -1,0 +1,29 @@
+//go:build verif
+// +build verif
+
+package ggql
+
+// Verification hooks, compiled only with the build tag "verif".
+
+// VerifYield, when set, is called with a site name immediately before the
+// marked lock acquisitions so that a test scheduler can order critical
+// sections deterministically.
+var VerifYield func(site string)
+
+func verifYield(site string) {
+	if f := VerifYield; f != nil {
+		f(site)
+	}
+}
+
+// VerifSubscribers returns the subscribers of the live subscriptions in
+// registry order.
+func (root *Root) VerifSubscribers() []Subscriber {
+	root.subLock.Lock()
+	defer root.subLock.Unlock()
+	subs := make([]Subscriber, 0, len(root.subscriptions))
+	for _, s := range root.subscriptions {
+		subs = append(subs, s.sub)
+	}
+	return subs
+}
